@@ -41,6 +41,15 @@ def is_task(obj) -> bool:
     return isinstance(getattr(type(obj), '_lt', None), TaskInfo) and hasattr(obj, '_is_task')
 
 
+def live(sim: Sim) -> Sim:
+    """A simulated-OS object (queue, process, thread) of a run that is over must not be used by a
+    later run: the code under test kept it across run_tasks calls (e.g. in a module-level cache).
+    The simulator cannot carry such objects from one simulated OS into the next."""
+    if sim.dead:
+        raise SimAbort('stale-os-object', 'an OS-level object created during an earlier run_tasks call (earlier simulated OS) was used again')
+    return sim
+
+
 def classify_item(obj) -> str:
     if isinstance(obj, logging.LogRecord):
         return 'log'
@@ -76,7 +85,7 @@ class SimQueue:
         return (_lookup_queue, (self.simos.os_id, self.qid))
 
     def put(self, obj, block=True, timeout=None):
-        sim = self.sim
+        sim = live(self.sim)
         sim.yp('q.put', self.name)
         data = pickle.dumps(obj)       # pickling errors surface in the caller
         self.items.append(data)
@@ -94,7 +103,7 @@ class SimQueue:
         return self.put(obj, False)
 
     def get(self, block=True, timeout=None):
-        sim = self.sim
+        sim = live(self.sim)
         sim.yp('q.get', self.name)
         if not self.items:
             if (not block) or (timeout is not None and timeout <= 0):
@@ -240,7 +249,7 @@ class SimProcess:
 
     # -- parent side
     def start(self):
-        sim = self.sim
+        sim = live(self.sim)
         simos = self.simos
         sim.yp('p.start', self.ordinal)
         flavour = self.requested if self.requested in ('fork', 'spawn') else simos.default_method
@@ -348,8 +357,15 @@ class SimProcess:
                     except BaseException:
                         pass
             sim.ev('pexit', ent.name, code)
-        except (SimAbort, _Frozen):
+        except _Frozen:
             return
+        except SimAbort as ab:
+            # raised inside this entity (e.g. a stale OS object): the whole run is aborted, the baton goes to main
+            if sim.dead:
+                return
+            if sim.aborted is None:
+                sim._set_abort(ab.reason, ab.detail)
+            code = 1
         sim.exit_entity(ent, code)
 
 
@@ -430,7 +446,7 @@ class SimThread:
         self.daemon = daemon
 
     def start(self):
-        sim = self.sim
+        sim = live(self.sim)
         sim.yp('t.start')
         sim.helper_count += 1
         n = sim.helper_count
@@ -438,8 +454,13 @@ class SimThread:
         def body(e: Entity):
             try:
                 self._target(*self._args, **self._kwargs)
-            except (SimAbort, _Frozen):
+            except _Frozen:
                 return
+            except SimAbort as ab:
+                if sim.dead:
+                    return
+                if sim.aborted is None:
+                    sim._set_abort(ab.reason, ab.detail)
             except BaseException as ex:
                 sim.ev('thread-exc', e.name, type(ex).__name__, str(ex)[:80])
             sim.exit_entity(e, 0)
